@@ -358,6 +358,94 @@ impl Check for RejectedPrograms {
     }
 }
 
+/// Process level: a value of one transparent data (codata) type used at another one that shares
+/// its constructor (destructor) names but disagrees in one, two or three arms: which disagreement is
+/// reported, and everything else printed, must not depend on the process instance.
+pub struct StructuralMismatches {
+    texts: Vec<String>,
+    seeds: u64,
+    chunk: usize,
+}
+impl StructuralMismatches {
+    pub fn new(tier: Tier) -> Self {
+        let tys = ["Unit", "Int64", "String"];
+        let mut texts = vec![];
+        // all pairs of three-arm types over three payload / result types that differ in at least one arm
+        for a in 0..27usize {
+            for b in 0..27usize {
+                if a == b {
+                    continue;
+                }
+                let pa: Vec<&str> = (0..3).map(|i| tys[a / 3usize.pow(i) % 3]).collect();
+                let pb: Vec<&str> = (0..3).map(|i| tys[b / 3usize.pow(i) % 3]).collect();
+                let pre = "let Ret = @(intrinsic(ret)) in let Thk = @(intrinsic(thk)) in let Unit = @(intrinsic(unit)) in let Int64 = @(intrinsic(i64)) in let String = @(intrinsic(string)) in ";
+                texts.push(format!(
+                    "{pre}let Shape = data | +Circle : {} | +Square : {} | +Empty : {} end in let Figure = data | +Circle : {} | +Square : {} | +Empty : {} end in let f : Thk (Shape -> Ret Int64) = {{ fn s => ret 0 }} in let g : Thk (Figure -> Ret Int64) = f in ret 0",
+                    pa[0], pa[1], pa[2], pb[0], pb[1], pb[2]
+                ));
+                texts.push(format!(
+                    "{pre}let Obj = codata | .area : Ret {} | .side : Ret {} | .name : Ret {} end in let Thing = codata | .area : Ret {} | .side : Ret {} | .name : Ret {} end in let f : Thk (Thk Obj -> Ret Int64) = {{ fn o => ret 0 }} in let g : Thk (Thk Thing -> Ret Int64) = f in ret 0",
+                    pa[0], pa[1], pa[2], pb[0], pb[1], pb[2]
+                ));
+            }
+        }
+        if tier == Tier::Quick {
+            texts = texts.into_iter().step_by(2).collect();
+        }
+        StructuralMismatches { texts, seeds: if tier == Tier::Thorough { 8 } else { 5 }, chunk: 8 }
+    }
+}
+impl Check for StructuralMismatches {
+    fn property(&self) -> &'static str {
+        "C16"
+    }
+    fn name(&self) -> String {
+        "c16-structural-mismatches".into()
+    }
+    fn len(&self) -> usize {
+        self.texts.len().div_ceil(self.chunk)
+    }
+    fn describe(&self, i: usize) -> String {
+        format!("programs #{}.. under hash seeds 0..{}; first:\n{}", i * self.chunk, self.seeds, self.texts[i * self.chunk])
+    }
+    fn rule(&self) -> String {
+        format!("all ordered pairs of distinct three-arm transparent data types (and of three-destructor codata types) with the same constructor / destructor names and payload / result types from {{Unit, Int64, String}}, a function over one used at the other (every second pair in the quick tier: {} programs, disagreeing in 1..3 arms), each checked by the real zydeco binary in a fresh process per hash seed 0..{}; oracle: exit status, stdout and stderr byte-identical across instances; non-trivial = every chunk", self.texts.len(), self.seeds)
+    }
+    fn run(&mut self, i: usize) -> CaseResult {
+        let a = i * self.chunk;
+        let b = (a + self.chunk).min(self.texts.len());
+        let mut r = CaseResult::ok("chunk").nontrivial(true).key(i as u64);
+        let bin = verif_root().join("target/debug/zydeco");
+        let scratch = Scratch::new("c16s");
+        for text in &self.texts[a..b] {
+            let _ = scratch.write("main.zydeco", text);
+            let args = vec!["check".to_string(), "main.zydeco".to_string()];
+            let mut first: Option<(Vec<u8>, Vec<u8>, Option<i32>)> = None;
+            for seed in 0..self.seeds {
+                r = r.count("processes", 1);
+                match run_once(&bin, &args, seed * 13 + 1, false, &scratch.dir) {
+                    | None => {
+                        r = r.violation("MACHINERY: the zydeco process could not be run".to_string(), text.clone());
+                        break;
+                    }
+                    | Some(o) => match &first {
+                        | None => first = Some(o),
+                        | Some(f) if *f != o => {
+                            let fa = String::from_utf8_lossy(&f.1).to_string();
+                            let fb = String::from_utf8_lossy(&o.1).to_string();
+                            let line = fa.lines().zip(fb.lines()).position(|(x, y)| x != y).unwrap_or(0);
+                            r = r.violation("the type error reported for structurally compared types differs between process instances", format!("seed 0 vs seed {}: exit {:?} vs {:?}; first differing stderr line {}:\n  {:?}\n  {:?}\n{}", seed, f.2, o.2, line + 1, fa.lines().nth(line), fb.lines().nth(line), text));
+                            break;
+                        }
+                        | _ => {}
+                    },
+                }
+            }
+        }
+        r
+    }
+}
+
 pub fn checks(tier: Tier) -> Vec<Box<dyn Check>> {
-    vec![Box::new(Determinism::new(tier)), Box::new(Diagnostics::new(tier)), Box::new(RejectedPrograms::new(tier))]
+    vec![Box::new(Determinism::new(tier)), Box::new(Diagnostics::new(tier)), Box::new(RejectedPrograms::new(tier)), Box::new(StructuralMismatches::new(tier))]
 }
